@@ -2265,8 +2265,9 @@ class Head(Expr):
 
     def _simplify_down(self):
         if isinstance(self.frame, Elemwise):
+            npartitions = self.operand("npartitions")
             operands = [
-                Head(op, self.n, self.npartitions)
+                Head(op, self.n, npartitions)
                 if isinstance(op, Expr) and not self.frame._broadcast_dep(op)
                 else op
                 for op in self.frame.operands
